@@ -96,6 +96,13 @@ def run(tier):
             c = rnd.choice([8, 12, 16, 17, 20, 24, 32])
             prog = [rnd.choice(nops + longs if nops else allc) if rnd.random() < 0.7 else rnd.choice(allc) for _ in range(rnd.randrange(2, 30))]
         add(c, rnd.choice([0, 1, 5, c - 1, c + 3, 4096 - 2]), [p[0] for p in prog], [p[1] for p in prog], [], "random")
+    # positions FAR into a library-managed buffer (2^18 .. 2^31), just before / at a chunk boundary: arithmetic on the position that
+    # is exact for small values only shows there
+    for c in (2, 3, 7, 8, 16, 17, 64, 100, 130, 255, 256, 1000, 4096, 4097, 32768, 46508, 65535, 65536, 100000):
+        for P in (2**16, 2**18, 2**20, 2**22, 2**24, 2**26, 2**28 + 5, 2**30, 2**31 - 200000) if full else (2**18, 2**20, 2**24, 2**26, 2**30, 2**31 - 200000):
+            for j in (rnd.randrange(1, 6), 0):
+                prog = [rnd.choice(allc) for _ in range(rnd.randrange(2, 9))]
+                add(c, (P // c) * c + c - j, [p[0] for p in prog], [p[1] for p in prog], [], "random", internal=True)
     # library-managed buffers (growing during the call) with chunk sizes around and above the mapping size, instructions placed across offset c / 2c
     for k in range(100 if not full else 3000):
         c = rnd.choice([6000, 6019, 6020, 6021, 8192, 12020, 12040, 65536, 100000])
@@ -183,7 +190,7 @@ def run(tier):
     stats["triples_c_q_len"] = len(seen_triples)
     stats["lengths_in_catalogue"] = sorted(cat)
     v.cov["rule"] = ("grid: chunk sizes %s x every position q in 0..c-1 (prefix of q one-byte non-NOP instructions) x every encoded length in the catalogue (%s bytes; 2+ lines each): "
-                     "every (c,q,len) triple incl. gaps > 11 bytes; plus seeded random programs x start offsets x fitting switched on/off/resized before the call, every chunk size 2..130, programs of long instructions under chunk sizes little above their length (pad after pad), user-written NOPs next to pads; c<2 must give the plain code. "
+                     "every (c,q,len) triple incl. gaps > 11 bytes; plus seeded random programs x start offsets x fitting switched on/off/resized before the call, every chunk size 2..130, programs of long instructions under chunk sizes little above their length (pad after pad), user-written NOPs next to pads, positions far into a library buffer (2^18..2^31) just before / at chunk boundaries; c<2 must give the plain code. "
                      "Oracle: layout model (pad exactly where the next instruction shorter than c would cross a c-aligned boundary), pad bytes must decode (two decoders) as NOP instructions "
                      "exactly covering the gap, instruction bytes must equal their plain encoding (stripped == plain); plus JIT execution: seeded executable programs must return the same rax plain and fitted" % ("2..20,32,64" if not full else "2..40,64,100,4096", sorted(cat)))
     v.cov["exhaustive"] = True
